@@ -21,7 +21,7 @@ import (
 )
 
 func init() {
-	extraGens = append(extraGens, c19TypeNames)
+	registerGen([]string{"TypeNames.v"}, c19TypeNames)
 }
 
 func c19TypeNames(repo, out string) {
